@@ -49,24 +49,34 @@ CORE5 = ('rename_def', 'change_params', 'paste', 'type', 'undo')
 _B = ('funcs', 'klass', 'mixed')
 YIELD6 = model.YIELD_EVENTS + ('undo',)
 _GEN = ('depth<=2/yield-tail events/gen', [('gen', 'YIELD6', 1), ('gen', 'YIELD6', 2)])
+# unsaved buffer / save to disk / analyse the path without code, all orders (path mode only for
+# histories that contain a disk event)
+DISK6 = ('rename_def', 'change_params', 'paste', 'save', 'reload', 'undo')
+_DISK = ('depth<=2/disk events/funcs', [('funcs', 'DISK6', 1), ('funcs', 'DISK6', 2)])
+# a project with a sibling module on disk that holds the only caller of a buffer function
+DYN5 = ('add_list_loop', 'rename_def', 'paste', 'type', 'undo')
+_DYN = ('depth<=2/sibling-module project/dyn', [('dyn', 'DYN5', 1), ('dyn', 'DYN5', 2)])
 # levels, simplest first: (name, [(base, alphabet name, depth), ...])
 PLANS = {
     'quick': [('depth1/13 events', [(b, 'Q13', 1) for b in _B]),
-              _GEN,
+              _GEN, _DISK, _DYN,
               ('depth2/13 events', [(b, 'Q13', 2) for b in _B]),
               ('depth3/core 5 events/funcs', [('funcs', 'CORE5', 3)])],
     'thorough': [('depth1/28 events', [(b, 'ALL28', 1) for b in _B]),
-                 _GEN,
+                 _GEN, _DISK, _DYN,
                  ('depth3/yield-tail events/gen', [('gen', 'YIELD6', 3)]),
+                 ('depth3/disk events/funcs', [('funcs', 'DISK6', 3)]),
+                 ('depth3/sibling-module project/dyn', [('dyn', 'DYN5', 3)]),
                  ('depth2/13 events', [(b, 'Q13', 2) for b in _B]),
                  ('depth2/28 events/mixed', [('mixed', 'ALL28', 2)]),
                  ('depth3/13 events', [(b, 'Q13', 3) for b in _B]),
                  ('depth4/core 5 events/funcs', [('funcs', 'CORE5', 4)])],
+    'seedtest': [_DISK, _DYN],
     'tiny': [('depth1/core 7 events/funcs', [('funcs', 'CORE7', 1)])],
     'dev': [('depth1/13 events', [(b, 'Q13', 1) for b in _B]),
             ('depth2/core 7 events/funcs', [('funcs', 'CORE7', 2)])],
 }
-ALPHABETS = {'Q13': model.QUICK_ALPHABET, 'YIELD6': YIELD6, 'CORE7': CORE7, 'CORE5': CORE5,
+ALPHABETS = {'Q13': model.QUICK_ALPHABET, 'YIELD6': YIELD6, 'DISK6': DISK6, 'DYN5': DYN5, 'CORE7': CORE7, 'CORE5': CORE5,
              'ALL28': model.ALL_EVENTS}
 
 
@@ -162,30 +172,45 @@ class Editor:
         os.makedirs(self.none_root, exist_ok=True)
         self.none_project = self.jedi.Project(self.none_root)
 
-    def open(self, mode, base):
-        """-> (path, root, project) for a new history."""
+    def open(self, mode, base, disk=None):
+        """-> (path, root, project) for a new history.  `disk` = what the buffer's file holds
+        (default: the base text; the buffer may differ from it)."""
         if mode == 'none':
             return None, self.none_root, self.none_project
         self.counter += 1
         root = os.path.join(self.top, 'h%d' % self.counter)
         os.makedirs(root)
         path = os.path.join(root, 'buf.py')
-        with open(path, 'w', newline='') as f:
-            f.write(model.BASES[base])       # the saved version; the buffer differs from it
-        os.utime(path, (FILE_MTIME, FILE_MTIME))
-        os.utime(root, (FILE_MTIME, FILE_MTIME))
+        for name, content in model.SIBLINGS.get(base, {}).items():
+            with open(os.path.join(root, name), 'w', newline='') as f:
+                f.write(content)
+            os.utime(os.path.join(root, name), (FILE_MTIME, FILE_MTIME))
+        self.saves = 0
+        self.write_disk(path, model.BASES[base] if disk is None else disk)
         return path, root, self.jedi.Project(root)
+
+    def write_disk(self, path, text):
+        """(Re)write the buffer's file; file and directory mtimes come from the file clock:
+        FILE_MTIME at the opening, +1 s per later save."""
+        with open(path, 'w', newline='') as f:
+            f.write(text)
+        t = FILE_MTIME + self.saves
+        self.saves += 1
+        os.utime(path, (t, t))
+        os.utime(os.path.dirname(path), (t, t))
 
     def close(self, mode, root):
         if mode == 'path':
             self.drop_shadow(os.path.join(root, 'buf.py'))
             shutil.rmtree(root, ignore_errors=True)
 
-    def script(self, text, path, project):
-        """The newest Script of the buffer.  The same text is also fed to a *shadow* parso cache
+    def script(self, text, path, project, nocode=False):
+        """The newest Script of the buffer (`nocode`: Script(path=...) only, jedi reads `text`
+        from the file itself).  The same text is also fed to a *shadow* parso cache
         entry (same grammar, same call, its own key), so that the shadow sees exactly the
         sequence of re-parses the buffer's entry sees - without jedi in between."""
-        s = self.jedi.Script(text, path=path, environment=self.env, project=project)
+        s = self.jedi.Script(None if nocode else text, path=path, environment=self.env,
+                             project=project)
         key = self.shadow_key(path)
         try:
             self.shadow_tree = s._inference_state.grammar.parse(
@@ -239,7 +264,7 @@ class Editor:
 
 
 def run_history(ed, mode, base, events, judge=None, refs=True):
-    """Replay one history.  `judge(step_index, text, answers) -> list of mismatches`.
+    """Replay one history.  `judge(step_index, (text, disk, nocode), answers) -> mismatches`.
     -> dict(steps=[...], evals=n)."""
     path, root, project = ed.open(mode, base)
     buf = model.Buffer(base)
@@ -257,6 +282,11 @@ def run_history(ed, mode, base, events, judge=None, refs=True):
                 raise RuntimeError('event %s disabled in %s' % (ev, hist_id(base, mode, events)))
             text, dt = r
             ed.clock.advance(dt)
+            if ev in model.DISK_EVENTS and mode != 'path':
+                raise RuntimeError('disk event in a path-less history: ' +
+                                   hist_id(base, mode, events))
+            if ev == 'save':
+                ed.write_disk(path, text)
             keystrokes = []
             if ev == 'type':
                 for kt in model.typing_steps(before, base)[:-1]:
@@ -274,7 +304,7 @@ def run_history(ed, mode, base, events, judge=None, refs=True):
                     del s
             rec = {'event': ev, 'sha': sha(text), 'keystroke_exc': keystrokes}
             try:
-                script = ed.script(text, path, project)
+                script = ed.script(text, path, project, nocode=buf.nocode)
             except Exception as e:
                 rec['answers'] = {'Script': {'exc': canon.exc_site(e),
                                              'tb': canon.short_tb(e, 4)}}
@@ -286,7 +316,8 @@ def run_history(ed, mode, base, events, judge=None, refs=True):
                 evals += n
                 del script
             if judge is not None:
-                rec['mismatches'] = [] if rec['diverged'] else judge(i, text, rec['answers'])
+                rec['mismatches'] = [] if rec['diverged'] else judge(i, buf.state(),
+                                                                      rec['answers'])
             steps.append(rec)
     finally:
         ed.close(mode, root)
@@ -344,8 +375,15 @@ def oracle_dir():
     return d
 
 
-def oracle_file(base, text, strict_mode=None):
-    tag = sha(base + '\0' + text) + ('' if strict_mode is None else '-strict-' + strict_mode)
+def oracle_file(base, text, strict_mode=None, disk=None, nocode=False):
+    """One file per (base, text) - plus what is on disk when that is not the base text, plus the
+    way the Script gets its text when jedi reads the file itself."""
+    tag = sha(base + '\0' + text)
+    if disk is not None and disk != model.BASES[base]:
+        tag += '-d' + sha(disk)[:10]
+    if nocode:
+        tag += '-nocode'
+    tag += '' if strict_mode is None else '-strict-' + strict_mode
     return os.path.join(oracle_dir(), tag + '.json')
 
 
@@ -367,9 +405,14 @@ def spawn_oracle(job, out_path):
     return None
 
 
+def job_file(job):
+    return oracle_file(job['base'], job['text'], job.get('strict'), job.get('disk'),
+                       job.get('nocode', False))
+
+
 def _oracle_task(task):
     """pool task: a fresh interpreter for one (base, text); answers for the requested modes."""
-    out = oracle_file(task['base'], task['text'], task.get('strict'))
+    out = job_file(task)
     if os.path.exists(out):
         return {'ok': True, 'cached': True}
     err = spawn_oracle(task, out)
@@ -428,16 +471,19 @@ def oracle_main(job_path, out_path):
     cd = settings.cache_directory
     copy_warm(job.get('warm'))   # private copy of the stub pickles written by the warm-up process
     ed = Editor('o')
-    items = [(job['base'], job['text'], out_path)]
+    items = [(job, out_path)]
     # batch > 1: further texts served by the same interpreter, each
     # under a never-used path, the path-less slot emptied in between
-    items += [(b, t, oracle_file(b, t)) for b, t in job.get('more', [])]
+    items += [(j, job_file(j)) for j in job.get('more', [])]
     try:
-        for base, text, out in items:
+        for it, out in items:
+            base, text, nocode = it['base'], it['text'], it.get('nocode', False)
             res = {}
             for mode in job['modes']:
-                path, root, project = ed.open(mode, base)
-                script = ed.script(text, path, project)
+                if mode != 'path' and (nocode or it.get('disk') is not None):
+                    continue        # states reached through disk events exist in path mode only
+                path, root, project = ed.open(mode, base, it.get('disk'))
+                script = ed.script(text, path, project, nocode=nocode)
                 if job.get('cursor'):
                     res[mode] = battery.cursor_answers(script, text, root)[0]
                 else:
@@ -461,14 +507,15 @@ def oracle_main(job_path, out_path):
 _oracle_memo = {}
 
 
-def load_oracle(base, text, mode):
-    """JSON-normalised expected answers (memoised in the worker)."""
-    k = (base, text)
+def load_oracle(base, state, mode):
+    """JSON-normalised expected answers (memoised in the worker); state = (text, disk, nocode)."""
+    text, disk, nocode = state
+    k = (base, text, disk, nocode)
     if k not in _oracle_memo:
         if len(_oracle_memo) > 400:
             _oracle_memo.clear()
         try:
-            with open(oracle_file(base, text)) as f:
+            with open(oracle_file(base, text, None, disk, nocode)) as f:
                 _oracle_memo[k] = json.load(f)
         except FileNotFoundError:
             _oracle_memo[k] = None
@@ -496,7 +543,8 @@ def task_sequence(task):
     hs = plan_histories([tuple(p) for p in task['plan']],
                         [tuple(p) for p in task.get('exclude', ())])
     mine = shard_histories(hs, task['seed'], task['shard'], task['nshards'])
-    return [(mode, base, events) for mode in task['modes'] for base, events, _ in mine]
+    return [(mode, base, events) for mode in task['modes'] for base, events, _ in mine
+            if mode == 'path' or not model.path_only(events)]
 
 
 def _work(task):
@@ -512,8 +560,8 @@ def _work(task):
             out['not_run'] = len(seq) - idx
             break
 
-        def judge(i, text, answers, mode=mode, base=base):
-            exp = load_oracle(base, text, mode)
+        def judge(i, state, answers, mode=mode, base=base):
+            exp = load_oracle(base, state, mode)
             if exp is None:
                 out['no_oracle'] += 1
                 return []
@@ -558,13 +606,14 @@ def _work(task):
 def _run_oracles(ctx, wanted, label, batch):
     """wanted: list of oracle jobs; runs them NPROC at a time.  -> number missing."""
     wanted = [w for w in wanted
-              if not os.path.exists(oracle_file(w['base'], w['text'], w.get('strict')))]
+              if not os.path.exists(job_file(w))]
     if batch > 1:
         plain = [w for w in wanted if not w.get('strict')]
         wanted = [w for w in wanted if w.get('strict')]
         for grp in _batches(plain, batch):
             head = dict(grp[0])
-            head['more'] = [[w['base'], w['text']] for w in grp[1:]]
+            head['more'] = [{k: w[k] for k in ('base', 'text', 'disk', 'nocode') if k in w}
+                            for w in grp[1:]]
             wanted.append(head)
     if not wanted:
         return 0
@@ -576,11 +625,24 @@ def _run_oracles(ctx, wanted, label, batch):
     return sum(1 + len(wanted[i].get('more', ())) for i in pres.skipped)
 
 
-def _strict(ctx, base, text, mode, perturb):
-    """A fresh interpreter with an EMPTY cache directory for exactly one (mode, text)."""
-    job = {'base': base, 'text': text, 'modes': [mode], 'perturb': perturb,
-           'strict': '%s-%d' % (mode, perturb)}
-    out = oracle_file(base, text, job['strict'])
+def state_job(base, state):
+    """Oracle job fields for a buffer state (text, disk, nocode)."""
+    text, disk, nocode = state
+    job = {'base': base, 'text': text}
+    if disk != model.BASES[base]:
+        job['disk'] = disk
+    if nocode:
+        job['nocode'] = True
+    return job
+
+
+def _strict(ctx, base, state, mode, perturb):
+    """A fresh interpreter with an EMPTY cache directory for exactly one (mode, buffer state)."""
+    if isinstance(state, str):
+        state = (state, model.BASES[base], False)
+    job = dict(state_job(base, state), modes=[mode], perturb=perturb,
+               strict='%s-%d' % (mode, perturb))
+    out = job_file(job)
     if not os.path.exists(out):
         err = spawn_oracle(job, out)
         if err:
@@ -608,7 +670,7 @@ def run(ctx):
               for b in model.BASES for m in MODES]
     base_jobs = [{'base': b, 'text': model.BASES[b], 'modes': both, 'warm': warm}
                  for b in model.BASES]
-    seen_texts = {(b, model.BASES[b]) for b in model.BASES}
+    seen_texts = {(b, model.BASES[b], model.BASES[b], False) for b in model.BASES}
     n_oracles = 1 + len(checks) + len(base_jobs)
     tot = {'histories': 0, 'steps': 0, 'evals': 0, 'judged': 0, 'no_oracle': 0, 'not_run': 0,
            'jedi_tree_wrong': 0}
@@ -617,7 +679,7 @@ def run(ctx):
     diverged, ksexc = [], []
     unstable = 0
     n_ksexc = 0
-    strict_used = {}
+    vstate = {'strict': set(), 'reported': {}, 'overridden': 0, 'not_reconfirmed': 0}
     done_levels = []
     exhaustive = True
     samples = []
@@ -632,10 +694,10 @@ def run(ctx):
         # ---- oracle phase: every distinct (base, text) this level reaches -----------------------
         jobs = []
         for base, events, ts in hs:
-            for t in ts:
-                if (base, t) not in seen_texts:
-                    seen_texts.add((base, t))
-                    jobs.append({'base': base, 'text': t, 'modes': both, 'warm': warm})
+            for st in model.history_states(base, events)[1:]:
+                if (base,) + st not in seen_texts:
+                    seen_texts.add((base,) + st)
+                    jobs.append(dict(state_job(base, st), modes=both, warm=warm))
         t1 = _real_time.time()
         extra = []
         if li == 0:
@@ -646,12 +708,12 @@ def run(ctx):
                     checks += [{'base': grp[-1]['base'], 'text': grp[-1]['text'], 'modes': [m],
                                 'strict': '%s-0' % m} for m in MODES]
             extra = checks + base_jobs
-            n_oracles += len(checks) - 6
+            n_oracles += len(checks) - 2 * len(model.BASES)
         n_oracles += len(jobs)
         missing = _run_oracles(ctx, extra + jobs, 'oracles of level ' + lname, batch)
         t_oracle += _real_time.time() - t1
         if li == 0:
-            _self_check(ctx, checks)
+            vstate['overridden'] += _self_check(ctx, checks)
         # ---- history phase ----------------------------------------------------------------------
         n = pool.NPROC
         tasks = [{'plan': [list(p) for p in entries], 'exclude': [list(p) for p in exclude],
@@ -688,12 +750,13 @@ def run(ctx):
                 ksexc.append(m)
         for k in tot:
             tot[k] += lv[k]
-        unstable += _verdicts(ctx, mism, strict_used)
+        unstable += _verdicts(ctx, mism, vstate)
         complete = not (missing or lv['not_run'] or lv['no_oracle'] or pres.skipped
                         or pres.crashed)
         if complete:
-            done_levels.append('%s: %d histories x %d modes, %d steps, %d new texts'
-                               % (lname, len(hs), len(MODES), lv['steps'], len(jobs)))
+            done_levels.append('%s: %d event sequences, %d histories over the modes, %d steps, '
+                               '%d new buffer states' % (lname, len(hs), lv['histories'],
+                                                         lv['steps'], len(jobs)))
         else:
             exhaustive = False
             ctx.note('level %s incomplete: %d oracle processes and %d histories not run (time '
@@ -732,6 +795,8 @@ def run(ctx):
         'parso_divergence_samples': diverged[:10],
         'steps_where_only_jedis_tree_was_wrong(judged)': tot['jedi_tree_wrong'],
         'fresh_processes_disagreeing_with_each_other': unstable,
+        'shared_oracle_contradicted_by_single_purpose_interpreters': vstate['overridden'],
+        'mismatches_not_reconfirmed(not reported)': vstate['not_reconfirmed'],
         'keystroke_exceptions_seen': n_ksexc,
         'event_hits': hits, 'events_never_enabled': disabled,
         'levels_completed': done_levels,
@@ -742,10 +807,17 @@ def run(ctx):
         'oracle_wall_s': round(t_oracle, 1), 'total_wall_s': round(_real_time.time() - t_start),
         'samples': samples,
     })
+    if vstate['overridden'] and not ctx.violations:
+        ctx.harness_error('the shared oracle interpreter was contradicted %d time(s) by '
+                          'single-purpose fresh interpreters although no history shows any '
+                          'dependence: the oracle itself is broken' % vstate['overridden'])
     ctx.assumptions += ASSUMPTIONS
 
 
 def _self_check(ctx, checks):
+    """-> number of cross-checked texts on which the shared oracle interpreter is contradicted by
+    single-purpose fresh interpreters (judged at the end of the run: see `overridden`)."""
+    bad = 0
     for c in checks:
         try:
             with open(oracle_file(c['base'], c['text'], c['strict'])) as f:
@@ -759,9 +831,11 @@ def _self_check(ctx, checks):
             again = _strict(ctx, c['base'], c['text'], c['modes'][0], 1) or {}
             d = [x for x in d if again.get(x[0]) == x[1]]
         if d:
-            ctx.harness_error('oracle self-check: shared-process oracle differs from a '
-                              'single-purpose fresh process on base %s mode %s at %s'
-                              % (c['base'], c['modes'][0], d[0][0]))
+            bad += 1
+            ctx.note('oracle cross-check: the shared oracle interpreter differs from two '
+                     'single-purpose fresh interpreters on base %s mode %s at %s'
+                     % (c['base'], c['modes'][0], d[0][0]))
+    return bad
 
 
 def _pre_of(m):
@@ -770,45 +844,62 @@ def _pre_of(m):
             'nshards': t['nshards'], 'modes': t['modes'], 'upto': m['seq']}
 
 
-def _verdicts(ctx, mism, strict_used):
-    """Turn a level's mismatches into violations; -> number set aside as oracle-unstable."""
+MAX_STRICT_STATES = 12      # buffer states re-judged by single-purpose interpreters per run
+MAX_PER_SITE = 2            # violations reported per failure site
+
+
+def _verdicts(ctx, mism, vs):
+    """Turn a level's mismatches into violations; -> number set aside as oracle-unstable.
+    Every reported violation is confirmed by two single-purpose fresh interpreters (one per
+    (mode, buffer state), empty cache directory, the second with a shifted heap).  If those
+    agree with the history's answer, the shared oracle interpreter (which answers mode none and
+    then mode path, in the quick tier for several texts) was itself influenced by what it had
+    analysed before: the step holds, the event is counted in `overridden` and judged at the
+    end of the run."""
     mism.sort(key=lambda m: (len(m['events']), m['step'], m['site'], m['seq'],
                              m['task']['shard']))
     unstable = 0
     for m in mism:
         hid = hist_id(m['base'], m['mode'], m['events'])
         input_id = '%s#%d' % (hid, m['step'])
-        text = _text_of(m['base'], m['events'], m['step'])
+        state = model.history_states(m['base'], m['events'])[m['step']]
+        skey = (m['base'], m['mode']) + state
+        if vs['reported'].get(m['site'], 0) >= MAX_PER_SITE or ctx.time_left() < 30 or (
+                skey not in vs['strict'] and len(vs['strict']) >= MAX_STRICT_STATES):
+            vs['not_reconfirmed'] += 1
+            continue
+        vs['strict'].add(skey)
+        a = _strict(ctx, m['base'], state, m['mode'], 0)
+        b = _strict(ctx, m['base'], state, m['mode'], 1)
+        if a is None or b is None:
+            continue
+        ea, eb = a.get(m['key'], '<not asked>'), b.get(m['key'], '<not asked>')
+        if ea != eb:
+            unstable += 1
+            ctx.note('fresh processes disagree with each other at %s %s (not judged)'
+                     % (input_id, m['key']))
+            continue
+        if not compare({m['key']: ea}, {m['key']: m['observed']}):
+            vs['overridden'] += 1
+            if vs['overridden'] <= 5:
+                ctx.note('shared oracle interpreter contradicted by two single-purpose fresh '
+                         'interpreters at %s %s; the history agrees with them (step holds)'
+                         % (input_id, m['key']))
+            continue
         case = {'mode': m['mode'], 'base': m['base'], 'events': m['events'], 'step': m['step'],
                 'key': m['key']}
-        confirmed = 'shared-process oracle only (strict confirmation: first input of a site, 4 per run)'
-        if not strict_used.get(m['site']) and len(strict_used) < 4 and ctx.time_left() > 30:
-            strict_used[m['site']] = strict_used.get(m['site'], 0) + 1
-            a = _strict(ctx, m['base'], text, m['mode'], 0)
-            b = _strict(ctx, m['base'], text, m['mode'], 1)
-            if a is None or b is None:
-                continue
-            ea, eb = a.get(m['key'], '<not asked>'), b.get(m['key'], '<not asked>')
-            if ea != eb:
-                unstable += 1
-                ctx.note('fresh processes disagree with each other at %s %s (not judged)'
-                         % (input_id, m['key']))
-                continue
-            if not compare({m['key']: ea}, {m['key']: m['observed']}):
-                ctx.harness_error('shared-process oracle differs from two single-purpose fresh '
-                                  'processes at %s %s' % (input_id, m['key']))
-                continue
-            confirmed = 'two single-purpose fresh interpreters (empty cache directory, second ' \
-                        'with a shifted heap) give the expected value'
-            if not _reproduces_alone(case, m['site']):
-                case['pre_task'] = _pre_of(m)
-        else:
+        if not _reproduces_alone(case, m['site']):
             case['pre_task'] = _pre_of(m)
+        vs['reported'][m['site']] = vs['reported'].get(m['site'], 0) + 1
         ctx.violation(m['site'], input_id,
-                      {'history': hid, 'step': m['step'], 'query': m['key'], 'text': text,
-                       'expected(fresh process)': m['expected'],
+                      {'history': hid, 'step': m['step'], 'query': m['key'], 'text': state[0],
+                       'on_disk_differs_from_base': state[1] != model.BASES[m['base']],
+                       'script_without_code': state[2],
+                       'expected(fresh process)': ea,
                        'observed(after history)': m['observed'],
-                       'other_queries_differing': m['other_keys'], 'oracle': confirmed,
+                       'other_queries_differing': m['other_keys'],
+                       'oracle': 'two single-purpose fresh interpreters (empty cache directory, '
+                                 'second with a shifted heap) give the expected value',
                        'needs_preceding_histories_of_its_worker': 'pre_task' in case}, case)
     return unstable
 
@@ -852,11 +943,13 @@ ASSUMPTIONS = [
     'the quick tier it then serves up to 11 further texts, each under a never-used path with '
     'the path-less slot emptied in between (texts_per_oracle_interpreter; thorough: 1).  Its '
     'cache directory is a private copy of the stub pickles written by a warm-up process '
-    '(the buffer itself is never pickled).  The first mismatch of each failure site (up to 4 '
-    'sites per run) is re-judged against two single-purpose fresh interpreters (one per (mode, text), '
-    'empty cache directory, the second with a shifted heap); the base texts and the text '
-    'served last by every batched interpreter of the first level are cross-checked that way '
-    'on every run (disagreement = harness error)',
+    '(the buffer itself is never pickled).  A mismatch is re-judged against two '
+    'single-purpose fresh interpreters (one per (mode, buffer state), empty cache directory, '
+    'the second with a shifted heap) and reported only if they contradict the history; the base '
+    'texts and the text served last by every batched interpreter of the first level are '
+    'cross-checked that way on every run.  If the single-purpose interpreters contradict the '
+    'shared oracle interpreter but agree with the history, the step holds; such contradictions '
+    'are a harness error only when the run found no history dependence at all',
     'proviso: after each step the tree jedi works on is compared (get_code(), structural dump, '
     'parent links) with a from-scratch parse; if it differs AND a shadow parso cache entry fed '
     'the same sequence of texts without jedi differs as well, the step is counted and listed '
@@ -872,19 +965,21 @@ ASSUMPTIONS = [
     'base `gen` (a plain function and a generator, both called and iterated at module level) '
     'is explored with the 5 yield-tail events + undo to depth 2 (thorough: 3): edits that touch '
     'only the last body line, for which parso keeps the funcdef node object',
+    'disk events (path mode only): `save` writes the buffer to its file (file and directory '
+    'mtime +1 s per save, owned) and re-analyses it; `reload` builds Script(path=...) WITHOUT '
+    'code, the buffer becomes what is on disk.  The oracle for such a state has the same file '
+    'content on disk and builds its Script the same way.  Explored on `funcs` with rename_def, '
+    'change_params, paste, undo to depth 2 (thorough 3)',
+    'base `dyn` lives in a project whose sibling module client.py (on disk) holds the only '
+    'call of a buffer function (dynamic parameter search across files); explored with '
+    'add_list_loop, rename_def, paste, type, undo to depth 2 (thorough 3)',
+    'a reported violation is always confirmed by two single-purpose fresh interpreters (at most '
+    '2 per failure site and 12 buffer states per run; the rest is counted as not re-confirmed)',
     'quick tier: all histories of depth <= 2 over the 13-event alphabet on 3 bases x 2 modes '
     'and all depth-3 histories over the 5-event core alphabet on base `funcs`; thorough: '
     'depth 1 over all 28 events and depth <= 3 over 13 events on all bases, depth 2 over 28 '
     'events on `mixed`, depth 4 over the 5-event core alphabet on `funcs`',
 ]
-
-
-def _text_of(base, events, step):
-    """Text after `step` events (step 0 = the freshly opened base text)."""
-    buf = model.Buffer(base)
-    for ev in events[:step]:
-        buf.apply(ev)
-    return buf.text
 
 
 def _reproduces_alone(case, site):
@@ -944,9 +1039,9 @@ def replay(case):
         return out
     if st['diverged']:
         return []
-    text = _text_of(base, events, step)
-    job = {'base': base, 'text': text, 'modes': [mode], 'strict': '%s-0' % mode}
-    path = oracle_file(base, text, job['strict'])
+    job = dict(state_job(base, model.history_states(base, events)[step]), modes=[mode],
+               strict='%s-0' % mode)
+    path = job_file(job)
     err = spawn_oracle(job, path)
     if err:
         raise RuntimeError(err)
